@@ -185,6 +185,9 @@ pub broadcast proof fn axiom_yielded_vec<T>(v: Vec<T>)
 pub assume_specification<T, const N: usize>[ <std::collections::VecDeque<T> as From<[T; N]>>::from ](arr: [T; N]) -> (r: std::collections::VecDeque<T>)
     ensures r@ == arr@;
 
+pub assume_specification<T: Clone>[ <T as ToOwned>::to_owned ](x: &T) -> (r: T)
+    ensures call_ensures(<T as Clone>::clone, (x,), r);
+
 #[verifier::external_body]
 pub fn __vx_collect<T, I: IntoIterator<Item = T>>(i: I) -> (r: Vec<T>)
     ensures r@ == yielded::<T, I>(i)
